@@ -59,7 +59,19 @@ func fail(a ...any) {
 
 func main() {
 	mutate := flag.String("mutate", "", "apply a named deliberate breakage (sensitivity self-test)")
+	list := flag.Bool("list-mutations", false, "print the deliberate breakages and the property each must trip")
 	flag.Parse()
+	if *list {
+		var names []string
+		for n := range mutations {
+			names = append(names, n)
+		}
+		sort.Strings(names)
+		for _, n := range names {
+			fmt.Println(n, mutations[n].property)
+		}
+		return
+	}
 	if flag.NArg() != 2 {
 		fail("usage: instrument [-mutate name] <repo> <outdir>")
 	}
@@ -68,7 +80,7 @@ func main() {
 		fail(err)
 	}
 	overlay := map[string]string{}
-	mutApplied := false
+	mutApplied := 0
 	for _, tg := range targets {
 		files, _ := filepath.Glob(filepath.Join(repo, tg.pattern))
 		sort.Strings(files)
@@ -82,12 +94,15 @@ func main() {
 				fail(err)
 			}
 			if *mutate != "" {
-				if m, ok := mutations[*mutate]; ok && m.file == rel {
-					if !strings.Contains(string(raw), m.old) {
+				for _, ed := range mutations[*mutate].edits {
+					if ed.file != rel {
+						continue
+					}
+					if !strings.Contains(string(raw), ed.old) {
 						fail("mutation", *mutate, "does not apply to", rel)
 					}
-					raw = []byte(strings.Replace(string(raw), m.old, m.new, 1))
-					mutApplied = true
+					raw = []byte(strings.Replace(string(raw), ed.old, ed.new, 1))
+					mutApplied++
 				}
 			}
 			src, err := rewriteFile(f, rel, raw, tg.mode)
@@ -101,9 +116,43 @@ func main() {
 			overlay[f] = dst
 		}
 	}
-	if *mutate != "" && !mutApplied {
+	if *mutate != "" && (mutApplied == 0 || mutApplied != len(mutations[*mutate].edits)) {
 		fail("unknown or inapplicable mutation", *mutate)
 	}
+	// every other non-test file of the module: only sync.Pool is replaced (a source of
+	// nondeterminism wherever it sits), nothing else is touched
+	_ = filepath.WalkDir(repo, func(path string, d os.DirEntry, err error) error {
+		if err != nil {
+			return nil
+		}
+		if d.IsDir() {
+			if n := d.Name(); n == ".git" || n == "examples" || n == "testdata" {
+				return filepath.SkipDir
+			}
+			return nil
+		}
+		if !strings.HasSuffix(path, ".go") || strings.HasSuffix(path, "_test.go") {
+			return nil
+		}
+		if _, done := overlay[path]; done {
+			return nil
+		}
+		raw, err := os.ReadFile(path)
+		if err != nil || !strings.Contains(string(raw), "sync.Pool") {
+			return nil
+		}
+		rel, _ := filepath.Rel(repo, path)
+		src, err := rewriteFile(path, rel, raw, "pool")
+		if err != nil {
+			fail(rel, err)
+		}
+		dst := filepath.Join(out, strings.ReplaceAll(rel, "/", "__"))
+		if err := os.WriteFile(dst, src, 0o644); err != nil {
+			fail(err)
+		}
+		overlay[path] = dst
+		return nil
+	})
 	added := filepath.Join(out, "ttlv__zz_kmipverif.go")
 	if err := os.WriteFile(added, []byte(addedTTLV), 0o644); err != nil {
 		fail(err)
@@ -149,7 +198,29 @@ func rewriteFile(path, rel string, raw []byte, mode string) ([]byte, error) {
 	if mode == "codec" {
 		r.yield = "simrt.YieldCodec"
 	}
+	// sync.Pool -> simrt.Pool everywhere in the file (types, composite literals)
+	usesSync := false
+	ast.Inspect(file, func(n ast.Node) bool {
+		if se, ok := n.(*ast.SelectorExpr); ok {
+			if id, ok := se.X.(*ast.Ident); ok && id.Name == "sync" {
+				if se.Sel.Name == "Pool" {
+					id.Name = "simrt"
+				} else {
+					usesSync = true
+				}
+			}
+		}
+		return true
+	})
+	for _, imp := range file.Imports {
+		if imp.Path.Value == `"sync"` && !usesSync {
+			file.Decls = append(file.Decls, parseDecl(`var _ sync.Locker`))
+		}
+	}
 	for _, d := range file.Decls {
+		if mode == "pool" {
+			break
+		}
 		fd, ok := d.(*ast.FuncDecl)
 		if !ok {
 			r.fn = "init"
